@@ -193,6 +193,12 @@ class PassHarness:
                 r = W.mk_reg(run, p)
                 info['regs'][p] = r
                 args.append(r)
+            elif p == 'imm' and variant == 'auipc-jump':
+                # the jalr half of a far call / tail as transform_pseudo_instructions builds it: %lo(%offset(L))
+                off = it.instantiate(self.h.env.vars['Offset'], [I.Sym('str', z3.Int('jump_target'))], {})
+                lo = it.instantiate(self.h.env.vars['Lo'], [off], {})
+                info['imm'] = lo
+                args.append(lo)
             elif p == 'imm':
                 if cls.name == 'Pack' and variant == 'resolved':
                     v = dom.var('immval')
@@ -217,7 +223,9 @@ class PassHarness:
             elif p == 'is_auipc_jump':
                 # class invariant: only the jalr half of a far call/tail carries the flag (established by
                 # transform_pseudo_instructions, see pseudo.constructed_item_obligations; parse_item leaves the default)
-                if isinstance(name, str) and name not in ('jalr', 'c.jr', 'c.jalr'):
+                if variant == 'auipc-jump':
+                    b = True
+                elif isinstance(name, str) and (name not in ('jalr', 'c.jr', 'c.jalr') or variant == 'plain'):
                     b = False
                 else:
                     b = I.Sym('bool', z3.Bool('is_auipc_jump'))
@@ -304,6 +312,10 @@ class PassHarness:
             st.out_name = out_names[0]
             st.init_pos = env.lookup(st.pos_name) if st.pos_name else None
             st.init_out = list(env.lookup(st.out_name))
+            # the tables at the loop head are ARBITRARY (not what they were when the pre-loop code ran): a view built
+            # before the loop must be a live view, a copy taken there is stale from the second iteration on
+            labels.havoc('head')
+            consts.havoc('head')
             P = dom.var('P')
             run.assume(P.t >= 0)
             st.P = P
@@ -331,10 +343,23 @@ class PassHarness:
             st.fenv = env
             raise _StepDone()
         hooks['for'] = for_hook
+
+        def dict_merge(itp, vals):
+            # {**a, **b, ...}: frozen copies, later operands win
+            snaps = [v.snapshot() if hasattr(v, 'snapshot') else v for v in vals]
+            return I.ChainMapVal(list(reversed(snaps)))
+        hooks['dict_merge'] = dict_merge
         args = []
         kwargs = {}
-        for p in self.params:
-            args.append({'items': items_in, 'labels': labels, 'constants': consts}.get(p, I.Opaque(p)))
+        a = self.node.args
+        n_required = len(a.args) - len(a.defaults)
+        for k, p in enumerate(self.params):
+            if p in ('items', 'labels', 'constants'):
+                args.append({'items': items_in, 'labels': labels, 'constants': consts}[p])
+            elif k >= n_required:
+                break            # optional parameters keep their defaults
+            else:
+                args.append(I.Opaque(p))
         try:
             it.call(self.func, args, kwargs)
         except _StepDone:
@@ -556,6 +581,19 @@ def immediate_goals(ph, st, P):
     the environment ChainMap(constants, labels), with the item's line; every other field is carried over."""
     g = {}
     expr = st.item.fields['imm']
+    if isinstance(expr, I.SObj) and expr.cls.name != 'SymExpr':
+        # a concrete expression tree (the jalr half of a far call / tail, %lo(%offset(L))): the baked value must equal the
+        # expression evaluated by its REAL eval methods at the auipc's offset in the live tables
+        ok_shape = len(st.appended) == 1 and st.appended[0].cls is st.item.cls
+        g['imm-evaluated-once-and-item-rebuilt'] = z3.BoolVal(bool(ok_shape))
+        if ok_shape:
+            it = st.it
+            flag = st.item.fields.get('is_auipc_jump', False)
+            at = it.binop(ast.Sub, st.P, 4) if flag is True else st.P
+            want = it.call(it.getattr(getattr(expr, 'copied_from', expr), 'eval'), [at, I.ChainMapVal([st.consts, st.labels]), st.item.fields.get('line')], {})
+            nv = st.appended[0].fields.get('imm')
+            g['imm-baked-is-the-evaluated-value'] = (nv.t == want.t) if isinstance(nv, I.Sym) and isinstance(want, I.Sym) else z3.BoolVal(False)
+        return g
     evs = [e for e in st.builder.evals if e[0] is expr and isinstance(e[4], I.Sym)]
     ok_shape = len(evs) == 1 and len(st.appended) == 1 and st.appended[0].cls is st.item.cls
     g['imm-evaluated-once-and-item-rebuilt'] = z3.BoolVal(bool(ok_shape))
@@ -631,6 +669,14 @@ def layout_obligations(ctx, ph, cls, name, paths, tag, replay):
         same_line = all(isinstance(o, I.SObj) and same_line_obj(o.fields.get('line'), st.item.fields.get('line')) for o in st.appended)
         goals['line'] = z3.BoolVal(same_line)
         goals['init'] = z3.BoolVal(bool(init_ok))
+        # every expression evaluated during the step sees the CURRENT tables (a live view of constants and labels)
+        live = True
+        for (e_, pos_, env_, line_, res_) in st.builder.evals:
+            maps = env_.maps if isinstance(env_, I.ChainMapVal) else [env_]
+            for m in maps:
+                if getattr(m, 'is_snapshot', False):
+                    live = False
+        goals['expressions-evaluated-in-the-live-tables'] = z3.BoolVal(live)
         if ph.pass_name in ('transform_compressible', 'transform_pseudo_instructions', 'resolve_aligns', 'resolve_labels'):
             # C08 (3): values evaluated BEFORE the final layout (size choice of li / call / tail, compression predicates) may
             # only select a shape; no appended item may carry such a value (it would be stale once labels move)
@@ -707,6 +753,10 @@ def task_layout_pass(ctx, pass_name, cls_name=None):
                 name_arg = nm
             try:
                 paths = explore_step_named(ph, cls, name_arg)
+                if cls.name == 'ITypeInstruction' and (nm == 'jalr' or isinstance(nm, tuple)) and \
+                        pass_name in ('transform_compressible', 'resolve_immediates', 'resolve_aligns', 'resolve_register_aliases'):
+                    # plus the concrete shape of the jalr half of a far call / tail
+                    paths = paths + explore_step_named(ph, cls, 'jalr', variant='auipc-jump')
             except I.Unsupported as e:
                 ctx.undecide('asm.%s/%s' % (pass_name, tag), 'construct not modelled: %s' % e)
                 continue
@@ -729,7 +779,7 @@ class SymName:
         self.names = names
 
 
-def explore_step_named(ph, cls, name_arg):
+def explore_step_named(ph, cls, name_arg, variant=None):
     def body(run):
         if isinstance(name_arg, SymName):
             if name_arg.names == [None]:
@@ -739,7 +789,7 @@ def explore_step_named(ph, cls, name_arg):
                 run.assume(z3.Or(*[nm.t == I.str_id(k) for k in name_arg.names]))
         else:
             nm = name_arg
-        st = ph.run_body(run, cls, nm)
+        st = ph.run_body(run, cls, nm, variant)
         return st
     return I.explore(body, I.IntDom)
 
